@@ -64,6 +64,8 @@ theorem copyin_not_written {s : RStmt} {x : Nat} (h : clauseOf (sacc s) x = .cop
     isWritten (sacc s) x = false := by
   unfold clauseOf at h
   split at h
+  · exact absurd h (by decide)
+  split at h
   · split at h
     · split at h <;> exact absurd h (by decide)
     · rename_i hw; simpa using hw
@@ -74,18 +76,20 @@ theorem copyout_read_first {s : RStmt} {x : Nat} (h : clauseOf (sacc s) x = .cop
   unfold clauseOf at h
   rw [if_pos hr] at h
   split at h
+  · exact absurd h (by decide)
+  split at h
   · split at h
     · assumption
     · exact absurd h (by decide)
   · exact absurd h (by decide)
 
-theorem cin_frame {s : RStmt} {l : Loc} (h : l.1 ∈ (clauses s).cin) (σ : Store) :
+theorem cin_frame {s : RStmt} (hcv : covered s = true) {l : Loc} (h : l.1 ∈ (clauses s).cin) (σ : Store) :
     (rexec fuel s σ) l = σ l := by
   obtain ⟨x, i, j⟩ := l
   apply rexec_frame
   intro hw
   have := copyin_not_written (mem_cin.mp h).2
-  rw [wvars_written hw] at this
+  rw [wvars_written hcv hw] at this
   exact absurd this (by decide)
 
 /-! ## The property -/
@@ -93,7 +97,7 @@ theorem cin_frame {s : RStmt} {l : Loc} (h : l.1 ∈ (clauses s).cin) (σ : Stor
 /-- the full claim: for every content `γ` of fresh device memory, every touched host array
 holds the same values after the data region as after executing the region on the host -/
 def C13_statement : Prop :=
-  ∀ (fuel : Nat) (s : RStmt) (σ γ : Store), ∀ x ∈ arrays s, ∀ i j,
+  ∀ (fuel : Nat) (s : RStmt) (σ γ : Store), covered s = true → ∀ x ∈ arrays s, ∀ i j,
     (execACC fuel (clauses s) s σ γ) (x, i, j) = (rexec fuel s σ) (x, i, j)
 
 /-- structure of the generated clauses: only arrays; `copyin` = read-only; an array goes to
@@ -112,21 +116,26 @@ theorem C13_clauses_disjoint (s : RStmt) (x : Nat) :
 
 theorem C13_copyout_char (s : RStmt) (x : Nat) :
     x ∈ (clauses s).cout ↔
-      isArr (sacc s) x = true ∧ (isRead (sacc s) x = false ∨ writtenFirst (sacc s) x = true) := by
+      isArr (sacc s) x = true ∧ hasRW (sacc s) x = false ∧
+        (isRead (sacc s) x = false ∨ writtenFirst (sacc s) x = true) := by
   rw [mem_cout, mem_arrays]
   constructor
   · rintro ⟨ha, hc⟩
-    refine ⟨ha, ?_⟩
+    have hrw : hasRW (sacc s) x = false := by
+      cases hq : hasRW (sacc s) x
+      · rfl
+      · unfold clauseOf at hc; rw [if_pos hq] at hc; exact absurd hc (by decide)
+    refine ⟨ha, hrw, ?_⟩
     cases hr : isRead (sacc s) x
     · exact Or.inl rfl
     · exact Or.inr (copyout_read_first hc hr)
-  · rintro ⟨ha, h⟩
+  · rintro ⟨ha, hrw, h⟩
     refine ⟨ha, ?_⟩
     unfold clauseOf
     rcases h with h | h
-    · simp [h]
+    · simp [h, hrw]
     · cases hr : isRead (sacc s) x
-      · simp
+      · simp [hrw]
       · have hw : isWritten (sacc s) x = true := by
           unfold writtenFirst firstOf at h
           split at h
@@ -135,11 +144,18 @@ theorem C13_copyout_char (s : RStmt) (x : Nat) :
             have := List.find?_some he
             exact ⟨e, List.mem_of_find?_eq_some he, by simpa using this, h⟩
           · exact absurd h (by decide)
-        simp [hw, h]
+        simp [hw, h, hrw]
+
+/-- **READWRITE goes to `copy`**: an array with a READWRITE access anywhere in the region (a
+by-reference argument of a call of unknown intent) is in `copy`, whatever its first access -/
+theorem C13_readwrite_copy (s : RStmt) (x : Nat) (ha : isArr (sacc s) x = true)
+    (h : hasRW (sacc s) x = true) : x ∈ (clauses s).cpy := by
+  rw [mem_cpy, mem_arrays]
+  exact ⟨ha, by unfold clauseOf; rw [if_pos h]⟩
 
 /-- **data movement is sufficient, partial**: if no touched array is put in `copyout`, the data
 region leaves the host exactly as host execution does — whatever the device memory held -/
-theorem C13_partial (s : RStmt) (h : FullyWrittenOrRead s) (σ γ : Store) :
+theorem C13_partial (s : RStmt) (hcv : covered s = true) (h : FullyWrittenOrRead s) (σ γ : Store) :
     execACC fuel (clauses s) s σ γ = rexec fuel s σ := by
   unfold FullyWrittenOrRead at h
   have hpart : ∀ x, x ∈ arrays s → x ∈ (clauses s).cin ∨ x ∈ (clauses s).cpy := by
@@ -170,25 +186,25 @@ theorem C13_partial (s : RStmt) (h : FullyWrittenOrRead s) (σ γ : Store) :
     split
     · rename_i h2
       rcases h2 with h2 | h2
-      · exact (cin_frame h2 σ).symm
+      · exact (cin_frame hcv h2 σ).symm
       · rcases hpart _ h2 with h3 | h3
-        · exact (cin_frame h3 σ).symm
+        · exact (cin_frame hcv h3 σ).symm
         · exact absurd (Or.inr h3) h1
     · rfl
 
 /-- in particular the host arrays agree (the form of `C13_statement`) and the result does
 not depend on the undefined device contents: no poison is consumed or copied back -/
-theorem C13_host_arrays_partial (s : RStmt) (h : FullyWrittenOrRead s) (σ γ : Store) :
+theorem C13_host_arrays_partial (s : RStmt) (hcv : covered s = true) (h : FullyWrittenOrRead s) (σ γ : Store) :
     ∀ x ∈ arrays s, ∀ i j, (execACC fuel (clauses s) s σ γ) (x, i, j) = (rexec fuel s σ) (x, i, j) := by
-  intro x _ i j; rw [C13_partial s h]
+  intro x _ i j; rw [C13_partial s hcv h]
 
-theorem C13_no_poison_partial (s : RStmt) (h : FullyWrittenOrRead s) (σ γ γ' : Store) :
+theorem C13_no_poison_partial (s : RStmt) (hcv : covered s = true) (h : FullyWrittenOrRead s) (σ γ γ' : Store) :
     execACC fuel (clauses s) s σ γ = execACC fuel (clauses s) s σ γ' := by
-  rw [C13_partial s h, C13_partial s h]
+  rw [C13_partial s hcv h, C13_partial s hcv h]
 
 /-- the same through the transformation: whenever `ACCDataTrans` accepts -/
 theorem C13_trans_partial (hasEnter : Bool) (items : List Item) (c : Clauses)
-    (hacc : accDataTrans hasEnter items = some c)
+    (hacc : accDataTrans hasEnter items = some c) (hcv : covered (rseqs (itemsStmt items)) = true)
     (h : FullyWrittenOrRead (rseqs (itemsStmt items))) (σ γ : Store) :
     execACC fuel c (rseqs (itemsStmt items)) σ γ = rexec fuel (rseqs (itemsStmt items)) σ := by
   unfold accDataTrans at hacc
@@ -196,7 +212,7 @@ theorem C13_trans_partial (hasEnter : Bool) (items : List Item) (c : Clauses)
   · exact absurd hacc (by simp)
   · simp only [Option.some.injEq] at hacc
     subst hacc
-    exact C13_partial _ h σ γ
+    exact C13_partial _ hcv h σ γ
 
 /-- refusals of `ACCDataTrans.validate` on the modelled inputs -/
 theorem C13_refusals (hasEnter : Bool) (items : List Item) :
@@ -216,10 +232,10 @@ theorem C13_refusals (hasEnter : Bool) (items : List Item) :
     exact ⟨h.1.1, h.1.2, h.2⟩
 
 /-- reads of `copyout` arrays only at covered elements: implied by "never read" -/
-theorem copyoutCovered_of_notRead (s : RStmt) (h : CopyoutNotRead s) : CopyoutCovered s := by
+theorem copyoutCovered_of_notRead (s : RStmt) (hcv : covered s = true) (h : CopyoutNotRead s) : CopyoutCovered s := by
   unfold CopyoutNotRead copyoutNotRead at h
   simp only [List.all_eq_true, Bool.not_eq_true'] at h
-  apply chk_of_reads
+  apply chk_of_reads s hcv
   intro ev he hw
   simp only [nonCout, List.mem_filter, mem_varsOf, Bool.not_eq_true', List.contains_eq_mem,
     decide_eq_false_iff_not]
@@ -233,7 +249,7 @@ of an element covered by an earlier unconditional store of the region (`CopyoutC
 particular if those arrays are never read), every location ends as on the host, except that an
 element of a `copyout` array which the region leaves untouched receives the undefined device
 value — no undefined value is ever consumed -/
-theorem C13_deviation_covered_partial (s : RStmt) (h : CopyoutCovered s) (σ γ : Store) (l : Loc) :
+theorem C13_deviation_covered_partial (s : RStmt) (hcv : covered s = true) (h : CopyoutCovered s) (σ γ : Store) (l : Loc) :
     (execACC fuel (clauses s) s σ γ) l = (rexec fuel s σ) l ∨
       (l.1 ∈ (clauses s).cout ∧ (execACC fuel (clauses s) s σ γ) l = γ l ∧ (rexec fuel s σ) l = σ l) := by
   let K : List Nat := nonCout s
@@ -267,7 +283,7 @@ theorem C13_deviation_covered_partial (s : RStmt) (h : CopyoutCovered s) (σ γ 
     rcases hl' with hl' | hl'
     · exact hd0 l' hl'
     · exact absurd hl'.1 (by simp)
-  have hs := (chk_sim (fuel := fuel) s ([], []) D d0 σ hD hkok h0).1.sim
+  have hs := (chk_sim (fuel := fuel) s hcv ([], []) D d0 σ hD hkok h0).1.sim
   have hE : (execACC fuel (clauses s) s σ γ) l = (hostFinal (clauses s) (arrays s) σ (rexec fuel s d0)) l := rfl
   rw [hE]
   simp only [hostFinal, Bool.or_eq_true, List.contains_iff_mem]
@@ -292,27 +308,27 @@ theorem C13_deviation_covered_partial (s : RStmt) (h : CopyoutCovered s) (σ γ 
       split
       · rename_i h2
         rcases h2 with h2 | h2
-        · exact (cin_frame h2 σ).symm
+        · exact (cin_frame hcv h2 σ).symm
         · rcases arr_partition h2 with h3 | h3 | h3
-          · exact (cin_frame h3 σ).symm
+          · exact (cin_frame hcv h3 σ).symm
           · exact absurd h3 hout
           · exact absurd (Or.inr h3) h1
       · exact hag
 
 /-- the same under the stronger "copyout arrays are never read" -/
-theorem C13_deviation_partial (s : RStmt) (h : CopyoutNotRead s) (σ γ : Store) (l : Loc) :
+theorem C13_deviation_partial (s : RStmt) (hcv : covered s = true) (h : CopyoutNotRead s) (σ γ : Store) (l : Loc) :
     (execACC fuel (clauses s) s σ γ) l = (rexec fuel s σ) l ∨
       (l.1 ∈ (clauses s).cout ∧ (execACC fuel (clauses s) s σ γ) l = γ l ∧ (rexec fuel s σ) l = σ l) :=
-  C13_deviation_covered_partial s (copyoutCovered_of_notRead s h) σ γ l
+  C13_deviation_covered_partial s hcv (copyoutCovered_of_notRead s hcv h) σ γ l
 
 /-- **full coverage suffices, partial**: if the `copyout` arrays are read at covered elements only and the region
 changes every element of them inside the declared extents `Ext`, the host agrees with host
 execution on all declared elements — the situation `copyout` is meant for -/
-theorem C13_covered_partial (s : RStmt) (h : CopyoutCovered s) (σ γ : Store) (Ext : Loc → Prop)
+theorem C13_covered_partial (s : RStmt) (hcv : covered s = true) (h : CopyoutCovered s) (σ γ : Store) (Ext : Loc → Prop)
     (hcov : ∀ l, l.1 ∈ (clauses s).cout → Ext l → (rexec fuel s σ) l ≠ σ l) :
     ∀ l, Ext l → (execACC fuel (clauses s) s σ γ) l = (rexec fuel s σ) l := by
   intro l hl
-  rcases C13_deviation_covered_partial s h σ γ l with h1 | ⟨hout, _, h3⟩
+  rcases C13_deviation_covered_partial s hcv h σ γ l with h1 | ⟨hout, _, h3⟩
   · exact h1
   · exact absurd h3 (hcov l hout hl)
 
@@ -331,7 +347,7 @@ theorem mem_withParents {par : List (Nat × Nat)} {l : List Nat} {x : Nat}
 is only accessed through its members), the data region with the parents added to the clauses
 (`clausesP`, what the real directive carries) behaves on every other variable exactly like the
 one with the member clauses only — so the theorems about `clauses` carry over -/
-theorem C13_parents_irrelevant (par : List (Nat × Nat)) (s : RStmt)
+theorem C13_parents_irrelevant (par : List (Nat × Nat)) (s : RStmt) (hcv : covered s = true)
     (hpar : ∀ q ∈ par, ∀ e ∈ sacc s, e.var ≠ q.2) (σ γ : Store) (l : Loc)
     (hl : ∀ q ∈ par, q.2 ≠ l.1) :
     (execACC fuel (clausesP par s) s σ γ) l = (execACC fuel (clauses s) s σ γ) l := by
@@ -347,7 +363,7 @@ theorem C13_parents_irrelevant (par : List (Nat × Nat)) (s : RStmt)
     rw [hc.1]
     exact (hpar q hq ev he).symm
   obtain ⟨D, hD⟩ := Option.isSome_iff_exists.mp
-    (chk_of_reads (K := K) s ([], []) (fun ev he _ => mem_varsOf.mpr ⟨ev, he, rfl⟩))
+    (chk_of_reads (K := K) s hcv ([], []) (fun ev he _ => mem_varsOf.mpr ⟨ev, he, rfl⟩))
   let dP := devInit (clausesP par s) (arrays s) σ γ
   let d0 := devInit (clauses s) (arrays s) σ γ
   have hd : ∀ l', A0 l' → dP l' = d0 l' := by
@@ -359,11 +375,38 @@ theorem C13_parents_irrelevant (par : List (Nat × Nat)) (s : RStmt)
     rcases hl' with hl' | hl'
     · exact hd l' hl'
     · exact absurd hl'.1 (by simp)
-  have hs := (chk_sim (fuel := fuel) s ([], []) D dP d0 hD hkok h0).1.sim
+  have hs := (chk_sim (fuel := fuel) s hcv ([], []) D dP d0 hD hkok h0).1.sim
   have hag : (rexec fuel s dP) l = (rexec fuel s d0) l := hs.agree l (Or.inl hl)
   show (hostFinal (clausesP par s) (arrays s) σ (rexec fuel s dP)) l
     = (hostFinal (clauses s) (arrays s) σ (rexec fuel s d0)) l
   simp only [hostFinal, clausesP, hmem _ l hl, hag]
+
+/-! ### calls of unknown intent (`RStmt.code`): READWRITE arguments go to `copy` -/
+
+/-- `call bump(a, s, b(k))` of unknown intent (a=0 b=1 s=4 k=5), callee `x(1)=x(2)+y; y=y+z; z=3` -/
+def callBump : RStmt :=
+  .code [.rw 0 true, .rw 4 false, .rw 1 true, .rd (.var 5)]
+    (.seq (.store1 0 (.lit 1) (.bin .add (.idx1 0 (.lit 2)) (.var 4)))
+      (.seq (.assign 4 (.bin .add (.var 4) (.idx1 1 (.var 5)))) (.store1 1 (.var 5) (.lit 3))))
+
+example : covered callBump = true ∧ clauses callBump = ⟨[], [], [0, 1]⟩ ∧ FullyWrittenOrRead callBump := by decide
+
+/-- `a(1) = 5; call bump(a, s, b(k))`: the first access of `a` is a (partial) WRITE, but the
+READWRITE access of the call puts `a` in `copy` (`has_read_write` is tested first) — so the
+hypothesis of `C13_partial` holds and the data region is exact -/
+def writeThenCall : RStmt := .seq (.store1 0 (.lit 1) (.lit 5)) callBump
+
+example : covered writeThenCall = true ∧ writtenFirst (sacc writeThenCall) 0 = true
+    ∧ clauses writeThenCall = ⟨[], [], [0, 1]⟩ ∧ FullyWrittenOrRead writeThenCall := by decide
+
+theorem writeThenCall_exact (σ γ : Store) :
+    execACC fuel (clauses writeThenCall) writeThenCall σ γ = rexec fuel writeThenCall σ :=
+  C13_partial writeThenCall (by decide) (by decide) σ γ
+
+/-- with `copyout(a)` instead (first-access rule applied before `has_read_write`) the callee
+reads the undefined device `a(2)`: host `a(1)` ends as 7 + s instead of a(2) + s -/
+example : (execACC 0 ⟨[], [0], [1]⟩ writeThenCall (storeOf [((0, 2, 0), 1)]) (storeOf [((0, 2, 0), 7)])) (0, 1, 0) = 7
+    ∧ (rexec 0 writeThenCall (storeOf [((0, 2, 0), 1)])) (0, 1, 0) = 1 := by decide
 
 /-! ## The defect: partially written arrays are put in `copyout` -/
 
@@ -381,7 +424,7 @@ example : accDataTrans false [.stmt (.store1 0 (.lit 1) (.lit 5)), .stmt (.store
 receives it -/
 theorem partial_copyout_counterexample : ¬ C13_statement := by
   intro h
-  have h1 := h 0 wit σw γw 1 (by decide) 2 0
+  have h1 := h 0 wit σw γw (by decide) 1 (by decide) 2 0
   revert h1
   decide
 
@@ -426,7 +469,7 @@ example : ∀ i : Fin 3, (rexec 0 cover (storeOf [])) (0, (i.val : Int) + 1, 0)
 example : clausesP [(1, 9), (2, 9)] (.store1 1 (.lit 1) (.bin .add (.idx1 0 (.lit 1)) (.idx1 2 (.lit 1))))
     = ⟨[9, 0, 2], [9, 1], []⟩ := by decide
 example : accDataTrans true [.stmt good] = none := by decide
-example : accDataTrans false [.stmt good, .excluded] = none := by decide
+example : accDataTrans false [.stmt good, .excluded .skip] = none := by decide
 example : accDataTrans false [] = none := by decide
 
 /-- `do while (r(1) > 0 .and. w > 0): r(1) = 0; w = w - 1` (r=0 w=1): the condition is the first
